@@ -41,7 +41,7 @@ use lightning::ln::channel_state::{ChannelCounterparty, ChannelDetails};
 use lightning::ln::msgs::{UnsignedChannelAnnouncement, UnsignedChannelUpdate};
 use lightning::ln::types::ChannelId;
 use lightning::routing::gossip::{NetworkGraph, NodeId};
-use lightning::routing::router::{find_route, InFlightHtlcs, PaymentParameters, Route, RouteHint, RouteHintHop, RouteParameters, ScorerAccountingForInFlightHtlcs};
+use lightning::routing::router::{build_route_from_hops, find_route, InFlightHtlcs, PaymentParameters, Route, RouteHint, RouteHintHop, RouteParameters, ScorerAccountingForInFlightHtlcs};
 use lightning::routing::scoring::{FixedPenaltyScorer, ProbabilisticScorer, ProbabilisticScoringDecayParameters, ProbabilisticScoringFeeParameters, ScoreUpdate};
 use lightning::routing::utxo::{UtxoLookup, UtxoResult};
 use lightning::types::features::{BlindedHopFeatures, Bolt11InvoiceFeatures, Bolt12InvoiceFeatures, ChannelFeatures, InitFeatures};
@@ -940,6 +940,35 @@ fn run_query(ctx: &Ctx, rep: &mut Report, sc: &Scenario, q: &Query, graph: &Netw
 				rep.count("routes_with_multi_hop_hints_offered");
 			}
 			validate(ctx, rep, sc, q, &route, &rp);
+			// V8: asked to build a route along the very nodes of a returned single path over public channels only,
+			// build_route_from_hops either refuses or returns one path through those nodes that satisfies the same rules
+			if route.paths.len() == 1 && q.blinded.is_empty() && q.first.is_none() && q.hints.is_empty() && pinned.is_none() && route.paths[0].hops.len() >= 1 {
+				let hops: Vec<PublicKey> = route.paths[0].hops.iter().map(|h| h.pubkey).collect();
+				rep.count("v8_build_route_from_hops_calls");
+				match vcore::guarded(|| build_route_from_hops(&keys[q.payer], &hops, &rp, graph, NullLogger, &q.seed_bytes)) {
+					Ok(Ok(r2)) => {
+						rep.count("v8_build_route_from_hops_routes");
+						// (with multi-path payments allowed the amount may be split over parallel channels of the same nodes)
+						let same = !r2.paths.is_empty() && r2.paths.iter().all(|p| p.blinded_tail.is_none() && p.hops.iter().map(|h| h.pubkey).collect::<Vec<_>>() == hops);
+						if r2.paths.len() > 1 {
+							rep.count("v8_build_route_from_hops_routes_with_several_parts");
+						}
+						if !same {
+							ctx.violate(rep, "V8-route-from-hops", "build_route_from_hops returned a path that does not run through exactly the given nodes", sc, q, format!("{} paths", r2.paths.len()));
+						} else {
+							validate(ctx, rep, sc, q, &r2, &rp);
+						}
+					},
+					Ok(Err(_)) => rep.count("v8_build_route_from_hops_refused"),
+					Err(p) => {
+						if p.starts_with(KNOWN_DEBUG_ASSERT) {
+							rep.count("ldk_debug_assert_used_liquidity_observed");
+						} else {
+							ctx.violate(rep, "V0-panic", &format!("panic in build_route_from_hops: {}", vcore::canon(&p)), sc, q, p);
+						}
+					},
+				}
+			}
 			let mut h = Fnv::new();
 			h.u64(q.blinded.len() as u64).u64(q.hints.iter().map(|x| x.len()).max().unwrap_or(0) as u64).u64(q.failed_blinded.is_empty() as u64).u64(q.excluded.is_empty() as u64);
 			for p in route.paths.iter() {
